@@ -28,7 +28,8 @@ def processLine (line : String) : String :=
       let expAudit := if mutating t then 1 else 0
       let auditOK := audits.length == expAudit &&
         audits.all (fun a => nat a "fields" == 7 && str a "tool" == t && str a "role" == str j "role")
-      if !ok then
+      if !(strs j "strays").isEmpty then s!"PROP C20,C18 tool-left-a-file-other-than-the-configured-path strays={strs j "strays"} in={tag}"
+      else if !ok then
         if !isErr then s!"PROP C20 denied-tool-ran in={tag}"
         else if effect then s!"PROP C20 denied-tool-had-effect in={tag}"
         else if !auditOK || audits.any (fun a => str a "result" != "denied") then s!"PROP C20 denied-call-audit in={tag}"
